@@ -37,7 +37,10 @@ def Fn(name, params, body, kind="fun"): return nd("fn", s=name, s2=kind, n=len(p
 def Block(stmts): return nd("block", kids=stmts)
 def Module(stmts): return nd("module", kids=stmts)
 def ExprSt(e): return nd("exprst", kids=[e])
-def Let(name, e): return nd("let", s=name, kids=[e])
+def Let(name, e):
+    if e["k"] == "lambda":
+        e["s"] = name           # a lambda bound by let is named after the variable (tracebacks)
+    return nd("let", s=name, kids=[e])
 def If(c, t, e=None): return nd("if", kids=[c, t] + ([e] if e is not None else []))
 def While(c, body): return nd("while", kids=[c, body])
 def For(item, it, body): return nd("for", s=item, kids=[it, body])
@@ -221,7 +224,7 @@ class Printer:
                 j = text.index("\x00", i + 1)
                 idx = int(text[i + 1:j])
                 line_of, _ = self._pending[idx]
-                base = len(self.lines) + (self.cur + out).count("\n")
+                base = len(self.lines) + (self.cur + out).count("\n") + 1
                 for nid, ln in line_of.items():
                     self.line_of.setdefault(nid, base + ln)
                 i = j + 1
@@ -250,6 +253,12 @@ class Printer:
         self.emit("}")
 
     def stmt(self, n):
+        if self.layout == "pad" and self.cur == "" and n["k"] != "module":
+            h = (n.get("_id", 0) * 2654435761) % 7
+            for _ in range(h % 3):
+                self.lines.append("")
+            if h == 5:
+                self.lines.append("  " * self.ind + "// padding")
         self.start()
         self.mark(n)
         k = n["k"]
@@ -318,7 +327,11 @@ def to_source(root, layout="canon"):
 
 def case_record(cid, root):
     nodes, r = flatten(root)
-    return {"id": cid, "nodes": nodes, "root": r}
+    names = {"script": [ord(c) for c in "script"], "lambda": [ord(c) for c in "lambda"], "[]": [91, 93], "[]=": [91, 93, 61]}
+    for n in nodes:
+        if n["k"] in ("fn", "lambda", "class") and n["s"]:
+            names[n["s"]] = [ord(c) for c in n["s"]]
+    return {"id": cid, "nodes": nodes, "root": r, "names": names}
 
 
 def decode_out(out):
